@@ -23,6 +23,15 @@ RULE = ("seeded random documents (maps/sequences/sets to depth 3, repeated equal
         "of a merge reference (`/svc0/&m1`, `svc0.&m1`, `/*/&m0`, `items.*.&m0`, collectors of them), of own keys, of elements: the "
         "physical document (own keys per mapping in order, merge references in order, sequences, anchors, sharing) afterwards "
         "is the original minus the matched own entries / elements / merge references.  "
+        "Merge-key documents also carry, in 45 %, a `defs` Hash (before or after the consumers) holding the only occurrence of "
+        "1-2 anchored Hashes named like ordinary consumer keys (n, z, t, k), consumers owning such keys, and ONE delete matching "
+        "both (`/*/n`, `(/svc0/n)+(/defs/n)`, `(/defs/n)+(/svc0/n)`, `(/svc0/n)+(/defs)`): every matched own key must be gone "
+        "(the known class C04-F4 is only the case in which the anchored Hash is still part of the document when the key is "
+        "processed).  (collectors over containers) documents whose scalars are all DISTINCT x `(p1)+(p2)[+(p3)]` with operands "
+        "that are exact paths to scalars, Hashes and real Arrays (under a Hash key or inside another Array), `X.*` and slices, "
+        "both notations and APIs: each node get_nodes() returns on a twin is identified by value (scalars) or identity "
+        "(containers) - not by the parent / parentref it carries - and the document afterwards must be the original minus "
+        "exactly those nodes (an Array as FIRST operand is the known class C04-F6).  "
         "distinct_nontrivial = distinct (document, path) pairs that matched >= 1 non-root node.")
 
 CORPUS = [
